@@ -12,6 +12,7 @@ sys.path.insert(0, os.path.dirname(os.path.abspath(__file__)))
 
 def main():
     import c09
+    c09.CALL_LIMIT = 240.0      # the first calls compile numba kernels; on a loaded machine that can take far longer than the check's own guard
     rng = random.Random(int(sys.argv[1]))
     out = []
     combos = [("grid", None, "scheduler", "es", "cma_es", "2imp"), ("grid", None, "bandit", "es", "sep_cma_es", "rd"),
